@@ -24,7 +24,10 @@ Proof.
   intros. unfold io_write. destruct (N.eqb (lenN bs) 0); [split; reflexivity|].
   destruct (next_ev w) as [[k amt] rest].
   destruct (N.eqb k 1); [split; reflexivity|]. destruct (N.eqb k 2); [split; reflexivity|].
-  destruct (N.eqb k 3); [split; reflexivity|]. cbn [fst]. now rewrite broker_feed_sess, broker_feed_live.
+  destruct (N.eqb k 3); [split; reflexivity|].
+  destruct (N.eqb k 4); [unfold slow_write; cbn [fst]; now rewrite broker_feed_sess, broker_feed_live|].
+  destruct (N.eqb k 5); [unfold slow_write; cbn [fst]; now rewrite broker_feed_sess, broker_feed_live|].
+  cbn [fst]. now rewrite broker_feed_sess, broker_feed_live.
 Qed.
 Lemma io_flush_sess : forall w, w_sess (fst (io_flush w)) = w_sess w /\ w_envok (fst (io_flush w)) = w_envok w.
 Proof.
